@@ -155,6 +155,10 @@ def oracle(case, io, mo):
         if text_arg(hits[0], 0) != b"/first" or hits[0].args[1] == "none":
             return "reference resolved to %r, not to the first matching definition" % text_arg(hits[0], 0)
     elif p.get("dl2") is not None and stable(p["dl2"]) and norm_ref(p["dl2"]) == norm_ref(ul):
+        # upper(lower(.)) identifies dotless i with i: then the first definition legitimately matches too and wins
+        lenient_first = norm_ref(dl).replace("ı", "i") == norm_ref(ul).replace("ı", "i")
+        if lenient_first and hits and text_arg(hits[0], 0) == b"/first":
+            return None
         if not hits or text_arg(hits[0], 0) != b"/second":
             return "use label %r should resolve to the second definition (label %r)" % (ul, p["dl2"])
     else:
